@@ -178,7 +178,7 @@ def fatal_fn(d, meta):
             continue
         ln = s['line_start'] - 1
         m = meta[ln] if 0 <= ln < len(meta) else None
-        if m and 'fn' in m and m.get('part') in ('body', 'hint', 'await', 'sig') or (m and 'fn' in m and str(m.get('part', '')).startswith('loop')):
+        if m and 'fn' in m and (m.get('part') in ('body', 'hint', 'await', 'sig', 'requires', 'ensures') or str(m.get('part', '')).startswith('loop')):
             return m['fn']
     return None
 
